@@ -1120,17 +1120,27 @@ Proof.
   - unfold q_min. rewrite (q_dec_scale c b a Hc). destruct (q_dec b a); reflexivity.
   - unfold q_nonneg. replace 0 with (c * 0) at 1 by ring. rewrite (q_dec_scale c x 0 Hc). reflexivity.
 Qed.
-Lemma ls_scale_covariant_Q_lemma : forall c : Qc, 0 < c -> forall signal response offs las,
-  ls_deconv Qc 0 q_dec nn_greedy_q (map (Qcmult c) signal) response offs las =
-  res_map (map (Qcmult c)) (ls_deconv Qc 0 q_dec nn_greedy_q signal response offs las).
+(* selection level: over the rationals extended by +infinity (a genuine `inf`, fixed by the scaling) *)
+Lemma ls_scale_covariant_Qinf_lemma : forall c : Qc, 0 < c -> forall signal response offs las,
+  ls_deconv (option Qc) None o_ltb nn_greedy_o (map (o_scale c) signal) response offs las =
+  res_map (map (o_scale c)) (ls_deconv (option Qc) None o_ltb nn_greedy_o signal response offs las).
 Proof.
   intros c Hc.
   assert (Hcc : 0 < c * c) by (replace 0 with (c * 0) by ring; apply qc_mul_mono_lt; assumption).
-  apply ls_deconv_scale_sec with (sc2 := Qcmult (c * c)); intros; try ring.
-  - unfold Qcdiv. ring.
-  - unfold q_min. rewrite (q_dec_scale c b a Hc). destruct (q_dec b a); reflexivity.
-  - unfold q_nonneg. replace 0 with (c * 0) at 1 by ring. rewrite (q_dec_scale c x 0 Hc). reflexivity.
-  - apply q_dec_scale. exact Hcc.
+  apply ls_deconv_scale_sec with (sc2 := o_scale (c * c)).
+  - cbn. f_equal. ring.
+  - intros [a|] [b|]; cbn; try reflexivity. f_equal. ring.
+  - intros [v|] [r|]; cbn; try reflexivity. f_equal. ring.
+  - intros [s|] [r|]; cbn; try reflexivity. f_equal. unfold Qcdiv. ring.
+  - intros [a|] [b|]; cbn; try reflexivity. f_equal.
+    unfold q_min. rewrite (q_dec_scale c b a Hc). destruct (q_dec b a); reflexivity.
+  - intros [x|]; cbn; [|reflexivity].
+    unfold q_nonneg. replace 0 with (c * 0) at 1 by ring. rewrite (q_dec_scale c x 0 Hc). reflexivity.
+  - intros [x|]; cbn; [|reflexivity]. f_equal. ring.
+  - intros [a|] [b|]; cbn; try reflexivity. f_equal. ring.
+  - cbn. f_equal. ring.
+  - intros [a|] [b|]; cbn; try reflexivity. apply q_dec_scale. exact Hcc.
+  - reflexivity.
 Qed.
 
 (* (6) over Q: a pulse a * response (a > 0) at k is recovered as exactly a at k and 0 elsewhere, residual 0 *)
